@@ -920,3 +920,49 @@ Proof.
     replace ((a <? 0) || (b <? 0))%Z%bool with false by lia. unfold go_slice.
     replace ((0 <=? a) && (a <=? b) && (b <=? Z.of_nat (length v)))%Z%bool with true by lia. reflexivity.
 Qed.
+
+(* ---------- custom counters: every matched record is counted exactly once ---------- *)
+
+Lemma bytes_cmp_eq : forall a b, bytes_cmp a b = Eq <-> a = b.
+Proof.
+  induction a as [|x a IH]; intros [|y b]; cbn [bytes_cmp]; split; intro H; try reflexivity; try discriminate.
+  - destruct (x ?= y) eqn:E; try discriminate. apply N.compare_eq_iff in E. apply IH in H. subst. reflexivity.
+  - inversion H; subst. rewrite N.compare_refl. apply IH. reflexivity.
+Qed.
+
+(* what a label has accumulated (count, length) *)
+Fixpoint cnt_sum (cs : counters) (label : bytes) : Z * Z :=
+  match cs with
+  | [] => (0, 0)%Z
+  | (l, (c, n)) :: cs' =>
+    let (c', n') := cnt_sum cs' label in
+    if bytes_eqb l label then (c + c', n + n')%Z else (c', n')
+  end.
+
+Lemma cnt_sum_add : forall cs label dc dl q,
+  cnt_sum (cnt_add cs label dc dl) q =
+  (let (c, n) := cnt_sum cs q in if bytes_eqb label q then (c + dc, n + dl)%Z else (c, n)).
+Proof.
+  induction cs as [|[l [c n]] cs IH]; intros label dc dl q.
+  - cbn [cnt_add cnt_sum]. destruct (bytes_eqb label q); f_equal; lia.
+  - cbn [cnt_add]. destruct (bytes_cmp label l) eqn:E.
+    + apply bytes_cmp_eq in E. subst l. cbn [cnt_sum]. destruct (cnt_sum cs q) as [c' n'].
+      destruct (bytes_eqb label q); [f_equal; lia|reflexivity].
+    + cbn [cnt_sum]. destruct (cnt_sum cs q) as [c' n'].
+      destruct (bytes_eqb label q); destruct (bytes_eqb l q); f_equal; lia.
+    + cbn [cnt_sum]. rewrite IH. destruct (cnt_sum cs q) as [c' n'].
+      destruct (bytes_eqb label q); destruct (bytes_eqb l q); f_equal; lia.
+Qed.
+
+(* a matched record adds (1, RawLength) to the dropped label or to "!"+label, never to both, and
+   to nothing else; which one says whether the record passed *)
+Lemma drop_accounting_lemma : forall m rate label matched dropped cs rawlen t' cs' b,
+  run_drop_matched m rate label matched dropped cs rawlen = (t', cs', b) ->
+  let hit := if b then 33 :: label else label in
+  forall q, cnt_sum cs' q =
+    (let (c, n) := cnt_sum cs q in if bytes_eqb hit q then (c + 1, n + rawlen)%Z else (c, n)).
+Proof.
+  intros m rate label matched dropped cs rawlen t' cs' b H hit q. unfold run_drop_matched in H.
+  destruct (rate =? 100)%Z; [|destruct ((matched >? 0) && (100 * dropped / matched <? rate))%Z];
+    inversion H; subst; unfold hit; apply cnt_sum_add.
+Qed.
